@@ -1,5 +1,5 @@
 """C08 — checksums certify the bytes (structural part)."""
-import os, struct, sys
+import json, os, struct, sys
 from absint import Prover, Linearizer
 from lin import Lin, entails_eq
 from paths import explore
@@ -350,6 +350,17 @@ def r08_3(ctx):
                 from sym import Sym
                 init = Sym(f).rvalue(st['rv'], bid, i)
     ctx.check(R, init is not None and init[0] == 'un' and init[1] == 'Not' and init[2][0] == 'param' and init[2][2] == 1, 'pre-inversion', 'the running crc must start as the complement of the previous sum: %s' % fmt(init)[:60], fn=f)
+    # every slice-by-16 table look-up of the function belongs to the one step verified above: more look-ups than its 16 lanes mean
+    # further table-driven steps (an 8- or 4-byte step for the remainder) that this rule has not checked
+    n_t16 = 0
+    for bid_, b_ in f.blocks.items():
+        if b_['cleanup']:
+            continue
+        for st_ in b_['stmts']:
+            if st_['k'] == 'assign' and 'TABLE16' in json.dumps(st_['rv']):
+                n_t16 += 1
+    if seen_fast and n_t16 > 16:
+        ctx.undecided(R, 'extra-table-steps', 'the CRC routine reads the slice-by-16 tables in %d places, the verified 16-byte step accounts for 16: the other table-driven steps are not checked' % n_t16, fn=f)
     if not seen_fast:
         ctx.undecided(R, 'fast-path', 'no 16-byte table step recognised (the loop left the table-driven family)', fn=f)
     if not seen_tail:
